@@ -73,7 +73,7 @@ def run(rep, prop=PROP):
     hist = {}; finals = set(); lines = 0; scen = 0; injected = 0; samples = []
     # (stage 4, started here because it is real time: descriptor-exhaustion stretches of chosen lengths, see below)
     stretch_ex = ThreadPoolExecutor(max_workers=1)
-    stretch_fut = stretch_ex.submit(srvrun.run_stretch, binary, os.path.join(wd, 'stretch'), srvrun.stretch_lengths(rep.tier))
+    stretch_fut = stretch_ex.submit(srvrun.run_stretch, binary, os.path.join(wd, 'stretch'), srvrun.stretch_scripts(rep.tier, rep.seed))
     def one(ix):
         name, plan = plans[ix]
         return name, srvrun.run_sweep(binary, os.path.join(wd, 'sweep%d' % ix), plan, cfg)
@@ -132,16 +132,16 @@ def run(rep, prop=PROP):
             emf_lines.append(line)
             if verdict != 'OK':
                 problems.append(('emfile', None, 'impl-violates-spec', verdict + ' in: ' + line, ['emfile', '# ' + line]))
-    # 4. exhaustion stretches of ANY length: a Listener handed to Serve fails k accepts in a row, k from 1 to beyond the
-    #    length of the back-off goroutine's delay table; afterwards the queued client and a fresh one must be served
+    # 4. exhaustion stretches: a Listener handed to Serve answers its first accepts from a script - k EMFILE in a row, k from 1
+    #    to beyond the length of the back-off goroutine's delay table, and fault sequences: EMFILE / ENFILE followed by / mixed
+    #    with the other errors accept(2) may report; afterwards the queued client and a fresh one must be served
     stretch_lines = []
-    for k, line, verdict in stretch_fut.result():
+    for sc, line, verdict in stretch_fut.result():     # shortest script first
         stretch_lines.append(line)
         if verdict.startswith('IMPL-SPEC-FAIL'):
-            problems.append(('stretch', None, 'impl-violates-spec', verdict + ' in: ' + line, ['stretch %d' % k, '# ' + line,
-                             '# a Listener whose first %d Accept calls return syscall.EMFILE is handed to Serve; one client connects at the start of the stretch, one after it' % k]))
+            problems.append(('stretch', None, 'impl-violates-spec', verdict + ' in: ' + line, stretch_replay(sc, line)))
         elif verdict != 'OK':
-            problems.append(('stretch', None, 'impl-model-differ', verdict + ' in: ' + line, ['stretch %d' % k, '# ' + line]))
+            problems.append(('stretch', None, 'impl-model-differ', verdict + ' in: ' + line, ['script %s' % sc, '# ' + line]))
     stretch_ex.shutdown()
     rep.cov['evaluations'] = scen + nreal + len(emf_lines) + len(stretch_lines)
     rep.cov['exhaustion_stretches'] = stretch_lines
@@ -167,12 +167,30 @@ def run(rep, prop=PROP):
                         'A-sched-fair / A-timer for the real-time parts (wait rounds, deadlines); A-epoll-del for the listener']
     report(rep, problems, proof_broken, findings_seen)
 
+LETTERS = dict(E='EMFILE', N='ENFILE', a='ECONNABORTED', i='EINTR', p='EPROTO', d='ENETDOWN', b='ENOBUFS', m='ENOMEM', h='EHOSTUNREACH',
+               t='ETIMEDOUT', K='(the real accept)')
+
+def stretch_replay(sc, line):
+    return ['script %s' % sc, '# ' + line,
+            '# fault sequence: the Listener handed to Serve answers its first %d Accept calls, whoever makes them (the poller\'s OnRead, the back-off goroutine), with'
+            % len(sc), '#   ' + ', '.join('syscall.' + LETTERS.get(c, c) if c != 'K' else LETTERS[c] for c in sc),
+            '# and is the real accept from then on (descriptors are available again); one client connects at the start of the script (it waits in the',
+            '# accept queue), a fresh one after it; both must be echoed and the process must be alive (Spec.stretchFails).',
+            '# results= what each Accept call answered (C connection, A EAGAIN), accepts= how many calls were made, left= script entries nobody asked for,',
+            '# idle_ms= time since the last Accept call when the waits were over']
+
 def report(rep, problems, proof_broken, findings_seen):
     genuine = [p for p in problems if p[2] == 'impl-violates-spec']
     others = [p for p in problems if p[2] != 'impl-violates-spec']
     if genuine:
         src, scn, kind, detail, lines = genuine[0]
-        rep.violation('implementation violates the C13 spec (%d scenarios, first is the replay; source %s): %s' % (len(genuine), src, detail), lines)
+        extra = []
+        if len(genuine) > 1:
+            extra += ['# other failing scenarios of this run: ' + ' | '.join(' '.join(l for l in g[4][:1]) for g in genuine[1:12])]
+        if proof_broken:      # the failing input is the report; the broken obligation is recorded next to it, not instead of it
+            rep.notes.append('besides the failing input: proof obligation / tie lemma broken: ' + proof_broken[-600:])
+            extra += ['# besides this failing input a proof obligation / tie lemma no longer builds:'] + ['#   ' + l for l in proof_broken.split('\n')[-12:]]
+        rep.violation('implementation violates the C13 spec (%d scenarios, first is the replay; source %s): %s' % (len(genuine), src, detail), lines + extra)
     elif others:
         src, scn, kind, detail, lines = others[0]
         rep.violation('correspondence Netpoll.Server <-> netpoll_server.go no longer checks (%s, %d scenarios; %s) and no spec-violating input was found in %d scenarios: %s'
@@ -196,7 +214,8 @@ def replay(rep, path):
         if len(f) == 4 and f[0] == 'sweep': plan.append((f[1], f[2], int(f[3])))
         if len(f) >= 2 and f[0] == 'real': reals.append((int(f[1]), int(f[2]) if len(f) > 2 else 5))
         if f[:1] == ['emfile']: emf = True
-        if len(f) == 2 and f[0] == 'stretch': stretches.append(int(f[1]))
+        if len(f) == 2 and f[0] == 'stretch': stretches.append('E' * int(f[1]))
+        if len(f) == 2 and f[0] == 'script': stretches.append(f[1])
     wd = os.path.join(common.WORK, 'replay13'); shutil.rmtree(wd, ignore_errors=True)
     found = []
     if plan:
